@@ -127,6 +127,21 @@ pub fn arith_case<F: FElem>(prop: &str, conf: Confidence, xs: &[F]) -> String {
 
 pub fn c01(out: &mut Vec<String>, rng: &mut Rng, tier: &str) {
     let szs = sizes(rng, tier);
+    // a state standing for more than 2^32 observations (merged from partial states): count and interval
+    for (d, extra) in [(32usize, 3usize), (33, 5)] {
+        out.push(crate::prog_ops::big_count_case_p::<f64, Arithmetic<f64>>("C01", "arith", d, extra));
+        out.push(crate::prog_ops::big_count_case_p::<f32, Arithmetic<f32>>("C01", "arith", d, extra));
+    }
+    // long samples sitting on an offset (many readings of a quantity far from zero with a small spread):
+    // n·u·(mean/s)² is of order one or more, yet the compensated sums keep the variance meaningful
+    for (n, base, spread) in [(4096usize, 100.0f64, 1.0f64), (20_000, 30.0, 0.5), (1500, 250.0, 2.0)] {
+        let xs: Vec<f32> = (0..n).map(|_| (base + (rng.unit() - 0.5) * 2.0 * spread) as f32).collect();
+        out.push(arith_case::<f32>("C01", rand_conf(rng), &xs));
+    }
+    for (n, base, spread) in [(200_000usize, 100_000.0f64, 0.5f64), (50_000, 1013.25, 0.01), (300_000, 2.0e6, 3.0)] {
+        let xs: Vec<f64> = (0..n).map(|_| base + (rng.unit() - 0.5) * 2.0 * spread).collect();
+        out.push(arith_case::<f64>("C01", rand_conf(rng), &xs));
+    }
     for n in &szs {
         for rep in 0..3 {
             let conf = rand_conf(rng);
@@ -376,6 +391,23 @@ pub fn c05(out: &mut Vec<String>, rng: &mut Rng, tier: &str) {
         let ys: Vec<f32> = (0..n).map(|_| ((0.5 + rng.unit()) * (2.0f64).powi(e32 as i32)) as f32).collect();
         out.push(geo_case::<f32>("C05", conf, &ys));
         out.push(harm_case::<f32>("C05", conf, &ys));
+    }
+    // strictly positive *subnormal* observations (below the smallest normal float) are valid data: the
+    // logarithm is an ordinary number (the harmonic mean is left out: the reciprocal of a subnormal overflows,
+    // which the crate reports through InvalidInputData / non-finite statistics)
+    for (k, n) in [(0usize, 3usize), (1, 5), (2, 8)] {
+        let subs64 = [5e-324f64, 1e-310, 2.2e-308, 3e-320];
+        let xs: Vec<f64> = (0..n).map(|i| subs64[(i + k) % 4] * (1.0 + (i % 3) as f64)).collect();
+        out.push(geo_case::<f64>("C05", rand_conf(rng), &xs));
+        let mut mixed: Vec<f64> = sample_pos_f64(rng, n, 8);
+        mixed[k] = subs64[k];
+        out.push(geo_case::<f64>("C05", rand_conf(rng), &mixed));
+        let subs32 = [1e-45f32, 1e-40, 1.1e-38, 3e-42];
+        let ys: Vec<f32> = (0..n).map(|i| subs32[(i + k) % 4] * (1.0 + (i % 3) as f32)).collect();
+        out.push(geo_case::<f32>("C05", rand_conf(rng), &ys));
+        let mut mixed32: Vec<f32> = mixed.iter().map(|x| *x as f32).collect();
+        mixed32[k] = subs32[k];
+        out.push(geo_case::<f32>("C05", rand_conf(rng), &mixed32));
     }
     // harmonic <= geometric <= arithmetic on the reported sample means
     for _ in 0..(if tier == "thorough" { 400 } else { 60 }) {
